@@ -107,7 +107,8 @@ def classOf (es : List (Nat × Nat)) (g : Nat) : Nat :=
 def read2 : (n : Nat) → (rest : List Nat) → (i : Nat) → (prevEnd : Nat) → Outcome (List (Nat × Nat))
   | 0, _, _, _ => .ok []
   | n + 1, s :: e :: c :: rest, i, prevEnd =>
-    if i > 0 ∧ s ≤ prevEnd then .err eInvalid
+    if i > 0 ∧ s ≤ prevEnd then .err eInvalid       -- "overlapping ranges in class definition table"
+    else if e < s then .err eInvalid                -- "invalid range in class definition table" (repair, §9 #36)
     else match read2 n rest (i + 1) e with
       | .ok r => .ok (r ++ (if c ≠ 0 then (List.range' s (e + 1 - s)).map (fun g => (g, c)) else []))
       | o => o
